@@ -89,6 +89,21 @@ class _Global(ast.NodeTransformer):
             else:
                 ext_.append(st)
         out = ext_
+        # G23: `d.update({'k1': v1, 'k2': v2})` (a literal with constant keys; pure values, or a single key) -> `d['k1'] = v1`; `d['k2'] = v2`;
+        #      `d.update({})` is dropped.  (what binding `**kwargs` of an inlined helper to the call's keywords leaves behind)
+        upd_: list[ast.stmt] = []
+        for st in out:
+            c_ = st.value if isinstance(st, ast.Expr) else None
+            if isinstance(c_, ast.Call) and isinstance(c_.func, ast.Attribute) and c_.func.attr == "update" and len(c_.args) == 1 and not c_.keywords \
+                    and isinstance(c_.args[0], ast.Dict) and all(isinstance(k_, ast.Constant) for k_ in c_.args[0].keys) and _is_pure(c_.func.value) \
+                    and (len(c_.args[0].keys) <= 1 or all(_is_pure(v_) for v_ in c_.args[0].values)):
+                d_ = c_.args[0]
+                for k_, v_ in zip(d_.keys, d_.values):
+                    tgt_ = ast.Subscript(value=copy.deepcopy(c_.func.value), slice=k_, ctx=ast.Store())
+                    upd_.append(ast.fix_missing_locations(ast.copy_location(ast.Assign(targets=[tgt_], value=v_), st)))
+                continue
+            upd_.append(st)
+        out = upd_
         # G14: `return A if c else B` -> `if c: return A` ; `return B`
         exp_: list[ast.stmt] = []
         for st in out:
@@ -271,13 +286,42 @@ class _Global(ast.NodeTransformer):
             if not (isinstance(a_t, ast.Name) and isinstance(a.value, ast.Constant) and isinstance(a.value.value, bool)):
                 continue
             fl, init = a_t.id, a.value.value
-            if not (isinstance(lp, ast.For) and not lp.orelse and len(lp.body) == 1 and isinstance(lp.body[0], ast.If) and not lp.body[0].orelse):
+            if not (isinstance(lp, ast.For) and not lp.orelse and lp.body):
                 continue
-            inner = lp.body[0]
-            if not (len(inner.body) == 2 and isinstance(inner.body[1], ast.Break) and isinstance(inner.body[0], ast.Assign) and len(inner.body[0].targets) == 1
-                    and isinstance(inner.body[0].targets[0], ast.Name) and inner.body[0].targets[0].id == fl
-                    and isinstance(inner.body[0].value, ast.Constant) and inner.body[0].value.value is (not init)):
+
+            def _found(stmts):
+                """the condition under which a tree of ifs reaches one of its leaves `f = <not init>; break` (None: some other statement
+                occurs).  a sequence is the disjunction of its members: a later member is only evaluated when the earlier ones did not
+                find anything, which is what `or` does"""
+                if len(stmts) == 2 and isinstance(stmts[1], ast.Break) and isinstance(stmts[0], ast.Assign) and len(stmts[0].targets) == 1 \
+                        and isinstance(stmts[0].targets[0], ast.Name) and stmts[0].targets[0].id == fl \
+                        and isinstance(stmts[0].value, ast.Constant) and stmts[0].value.value is (not init):
+                    return True
+                alts = []
+                for s_ in stmts:
+                    if isinstance(s_, ast.Pass):
+                        continue
+                    if not isinstance(s_, ast.If):
+                        return None
+                    b_, o_ = _found(s_.body), _found(s_.orelse) if s_.orelse else False
+                    if b_ is None or o_ is None:
+                        return None
+                    for cond_, sub_ in ((s_.test, b_), (ast.UnaryOp(op=ast.Not(), operand=copy.deepcopy(s_.test)), o_)):
+                        if sub_ is False:
+                            continue
+                        if sub_ is True:
+                            alts.append(cond_)
+                        else:
+                            vals = (cond_.values if isinstance(cond_, ast.BoolOp) and isinstance(cond_.op, ast.And) else [cond_]) + \
+                                   (sub_.values if isinstance(sub_, ast.BoolOp) and isinstance(sub_.op, ast.And) else [sub_])
+                            alts.append(ast.BoolOp(op=ast.And(), values=list(vals)))
+                if not alts:
+                    return False
+                return alts[0] if len(alts) == 1 else ast.BoolOp(op=ast.Or(), values=alts)
+            cond_found = _found(lp.body)
+            if cond_found in (None, True, False):
                 continue
+            inner = ast.If(test=cond_found, body=[], orelse=[])
             if not (isinstance(use, ast.If) and not use.orelse):
                 continue
             t = use.test
@@ -1209,23 +1253,31 @@ def _recover_renames_by_position(fn: ast.FunctionDef, ref_locals: list[str], log
 # ------------------------------------------------------------------------------------------------ inlining
 def _param_map(callee: ast.FunctionDef, call: ast.Call, skip_first: bool) -> dict[str, ast.AST] | None:
     a = callee.args
-    if a.vararg or a.kwarg or a.posonlyargs and False:
-        return None
     params = [x.arg for x in [*a.posonlyargs, *a.args]]
     if skip_first:
         params = params[1:]
     kwonly = [x.arg for x in a.kwonlyargs]
     if any(isinstance(x, ast.Starred) for x in call.args) or any(k.arg is None for k in call.keywords):
         return None
-    if len(call.args) > len(params):
+    if len(call.args) > len(params) and not a.vararg:
         return None
     m: dict[str, ast.AST] = {}
     for p, v in zip(params, call.args):
         m[p] = v
+    extra_kw: list[tuple[str, ast.AST]] = []
     for k in call.keywords:
-        if k.arg in m or k.arg not in params + kwonly:
+        if k.arg in m:
             return None
+        if k.arg not in params + kwonly:
+            if not a.kwarg:
+                return None
+            extra_kw.append((k.arg, k.value))  # collected by `**kwargs`, in call order (dicts keep it)
+            continue
         m[k.arg] = k.value
+    if a.kwarg:
+        m[a.kwarg.arg] = ast.Dict(keys=[ast.Constant(k_) for k_, _ in extra_kw], values=[v_ for _, v_ in extra_kw])
+    if a.vararg:
+        m[a.vararg.arg] = ast.Tuple(elts=list(call.args[len(params):]), ctx=ast.Load())
     defaults = a.defaults
     pos_all = [x.arg for x in [*a.posonlyargs, *a.args]]
     for p, d in zip(pos_all[len(pos_all) - len(defaults):], defaults):
@@ -1749,6 +1801,15 @@ def normalize_module(tree: ast.Module, modname: str, log: list[str] | None = Non
     if new or imported:
         fn_quals = {q for q, _, _, _ in fns}
         helpers: dict[str, tuple[ast.FunctionDef, bool]] = {k: (v, False) for k, v in imported.items()}
+        # a method is a helper only for callers of its own class, and only when no other class of the module defines the name
+        # (an override is reached by dynamic dispatch: `self.m()` in the base class may run the subclass's body, and a new
+        # `__hash__` / `__eq__` / ... is never called by name at all): such methods are kept as they are and analysed as methods
+        method_owners: dict[str, set[str]] = {}
+        for q, f, c, b in fns:
+            if c is not None and q.rsplit(".", 1)[0] not in fn_quals:
+                method_owners.setdefault(f.name, set()).add(c.name)
+        per_class: dict[str, dict[str, tuple[ast.FunctionDef, bool]]] = {}
+        ref_method_names = {q_.rsplit(".", 1)[-1] for q_ in ref}
         for q, f, c, b in new:
             decos = [_dotted(d) for d in f.decorator_list]
             if any(d not in ("staticmethod", "classmethod") for d in decos):
@@ -1760,17 +1821,28 @@ def normalize_module(tree: ast.Module, modname: str, log: list[str] | None = Non
                 # variables are the enclosing function's, so inlining it there leaves them bound to the same objects)
                 helpers[f.name] = (f, False)
             else:
+                if f.name.startswith("__") and f.name.endswith("__") or len(method_owners.get(f.name, ())) > 1 or f.name in ref_method_names:
+                    continue  # (a name some class of the package already uses for a method: possibly an override of an inherited method)
                 static = "staticmethod" in decos
-                for recv in ("self", "cls", c.name):
-                    helpers[f"{recv}.{f.name}"] = (f, (not static) and recv in ("self", "cls") or ("classmethod" in decos and recv == c.name))
-                if static:
-                    helpers[f"{c.name}.{f.name}"] = (f, False)
-        inl = _Inliner(helpers, log)
+                own = per_class.setdefault(c.name, {})
+                for recv in ("self", "cls"):
+                    own[f"{recv}.{f.name}"] = (f, not static)
+                helpers[f"{c.name}.{f.name}"] = (f, "classmethod" in decos)
         new_ids = {id(f) for _, f, _, _ in new}
+        inliners: dict[str | None, _Inliner] = {}
+
+        def _inl_for(c_):
+            key_ = c_.name if c_ is not None else None
+            if key_ not in inliners:
+                inliners[key_] = _Inliner({**helpers, **per_class.get(key_, {})}, log)
+            return inliners[key_]
+        inl = _inl_for(None)
         for q, f, c, b in fns:
             if id(f) not in new_ids:
-                _uncomprehend_for_helpers(f, inl)
-                inl.run(f)
+                _uncomprehend_for_helpers(f, _inl_for(c))
+                _inl_for(c).run(f)
+        for own in per_class.values():
+            helpers.update(own)  # for the bookkeeping below (was the helper inlined everywhere?)
         # lambdas in class-level / module-level declarations (field loaders, registries): inline helper calls there too
         def _decl_blocks(body):
             for st_ in body:
